@@ -21,8 +21,8 @@ P = {
                   "forms for colour-isomorphic inputs) is validated on every call and every generated pair of this run, not proved.",
              tech="Lean 4 proof (equivariance + bliss contract + serializer congruence) + model/code correspondence + relabelling probe"),
  "C02": dict(text="Proved about the model: if two molecules (domain MolAtoms) get the same string they are isomorphic as graphs coloured by "
-             "element, mass and radical (C02_injective, C02_distinct; with C01, for an oracle meeting the contract, equality of strings is equivalent to such an isomorphism: C02_complete_invariant) — via reconstruction (C03), for oracles that merely return "
-             "permutations. Probe: near-miss pairs and all collisions among generated strings vs an independent matcher.",
+             "element, mass and radical (C02_injective, C02_distinct; C02_files_same_string_isomorphic: two molfile texts read as conformant molecules that get one string state isomorphic molecules; with C01, for an oracle meeting the contract, equality of strings is equivalent to such an isomorphism: C02_complete_invariant) — via reconstruction (C03), for oracles that merely return "
+             "permutations. Probe: near-miss pairs (at graph level and as renumbered V3000/V2000 files) and all collisions among generated strings vs an independent matcher.",
              note="needs only that igraph returns a permutation (checked per call).",
              tech="Lean 4 proof (injectivity via decode∘encode) + correspondence + near-miss pairs vs independent isomorphism matcher"),
  "C03": dict(text="Proved about the model: graph_from_tucan(tucan(G)) is G under a renaming (same element/mass/radical, same adjacency, same "
@@ -33,7 +33,7 @@ P = {
                   "parser establish; bliss contract for the fixed point.",
              tech="Lean 4 proof (decode∘encode, fixed point) + correspondence + round-trip probe"),
  "C04": dict(text="Proved about the model, for every oracle meeting the bliss contract: canonical graphs of two descriptions of one molecule have "
-             "labels 0…n-1, equal (element, mass, radical, class) per label and equal adjacency (C04_canonical_graph, C04_nodes_and_edges), the class being set on every label (C04_classes_set). "
+             "labels 0…n-1, equal (element, mass, radical, class) per label and equal adjacency (C04_canonical_graph, C04_nodes_and_edges), the class being set on every label (C04_classes_set); C04_graphs_of_same_molecule: the same for the graphs either reader returns for two listings of one molecule. "
              "Probe: node maps and edge sets of the real canonical graphs; the contract is validated on every pair.",
              note="bliss contract validated per call/pair, not proved.",
              tech="Lean 4 proof (equivariance + bliss contract + relabelling) + correspondence + canonical-graph probe"),
@@ -97,7 +97,7 @@ P = {
              "gives the same string. The harness snapshots arguments, checks aliasing and repeats calls (serialize 2-4 times) on the same objects.",
              note="value semantics of the model is faithful only without aliasing, which the harness checks.",
              tech="Lean 4 proof (relabelling lemmas) + correspondence with argument post-states + renaming probe"),
- "C13": dict(text="Proved about the model, no oracle: classes are equivariant under relabelling in any listing (equal round counts), invariant under "
+ "C13": dict(text="Proved about the model, no oracle: classes are equivariant under relabelling in any listing (equal round counts; C13_graphs_of_same_molecule: also stated for the graphs either reader returns for two listings of one molecule), invariant under "
              "automorphisms, the final partition is equitable and atoms of one class have the same element, mass and radical (C13_same_class_same_identity); every atom has a class and the canonical graph carries it (C13_classes_on_canonical_graph); one more refinement step changes no class (C13_stable_under_refinement); rounds ≤ n+1. Probe: the three clauses "
              "on the real partition attribute.",
              note="", tech="Lean 4 proof (equivariance, equitability) + correspondence + partition probe"),
